@@ -267,6 +267,28 @@ func initModels() {
 		return nil
 	}}
 
+	// net.CIDRMask(ones, bits): nil unless bits is 32 or 128 and 0 <= ones <= bits; else bits/8 fresh
+	// bytes with `ones` leading one-bits (defined by construction from the net package documentation).
+	models["net.CIDRMask"] = &model{writes: writesBytes, note: "net.CIDRMask modelled by construction: bits/8 bytes with `ones` leading 1-bits, nil for invalid arguments", fn: func(m *mctx) *Term {
+		x := m.fr.x
+		c := x.c
+		ones, bits := m.args[0], m.args[1]
+		valid := c.And(c.Or(c.Eq(bits, c.BV(32, 64)), c.Eq(bits, c.BV(128, 64))), c.BVCmp("bvsge", ones, c.BV(0, 64)), c.BVCmp("bvsle", ones, bits))
+		l := c.BVBin("bvlshr", bits, c.BV(3, 64))
+		base := c.Obj(m.s.alloc)
+		m.s.alloc = c.IntBin("+", m.s.alloc, c.Int(1))
+		old := x.memOf(m.s, SBV(8))
+		nm := c.Fresh("mem_cidrmask", old.sort)
+		r := c.BVar("r", SRef)
+		idx := c.Sel("pelem_idx", SBV(64), c.RPath(r))
+		rem := c.BVBin("bvsub", ones, c.BVBin("bvshl", idx, c.BV(3, 64))) // ones - 8*idx
+		sh := c.Extract(7, 0, c.BVBin("bvsub", c.BV(8, 64), rem))
+		bytev := c.Ite(c.BVCmp("bvsge", rem, c.BV(8, 64)), c.BV(0xff, 8), c.Ite(c.BVCmp("bvsle", rem, c.BV(0, 64)), c.BV(0, 8), c.BVBin("bvshl", c.BV(0xff, 8), sh)))
+		in := c.And(x.isElemOf(r, base), c.BVCmp("bvult", idx, l))
+		x.assume(m.g, c.Forall([]*Term{r}, c.Ite(in, c.Eq(c.Select(nm, r), bytev), c.Eq(c.Select(nm, r), c.Select(old, r))), c.Select(nm, r)))
+		m.s.mem[SBV(8)] = nm
+		return c.Ite(valid, c.MkSlice(base, c.BV(0, 64), l, l), c.NilSlice())
+	}}
 	initNetipModels()
 	initTimeModels()
 }
